@@ -406,7 +406,7 @@ def decide(ob, tier='quick', seed=0):
 
 def _decide(ob, tier, res):
     t_begin = time.time()
-    budget = getattr(ob, 'budget_s', 100) if tier != 'thorough' else getattr(ob, 'budget_thorough_s', 2400)
+    budget = getattr(ob, 'budget_s', 100) if tier != 'thorough' else getattr(ob, 'budget_thorough_s', 1200)
     if tier == 'thorough':
         ob.timeout_s = max(ob.timeout_s, ob.timeout_thorough_s)
     mk = _Mk()
